@@ -1,3 +1,4 @@
+@classmethod
 def spec(cls, loc):
     loc = _astensorsfloat(loc)
     return loc
